@@ -243,6 +243,7 @@ BREAKING = [
     ('C13', 'sc3/seq/patterns/valuepatterns.py', "                inval = yield bi.exprand(loval, hival)", "                inval = yield bi.rrand(loval, hival)", 'Pexprand draws from the uniform distribution'),
     ('C13', 'sc3/seq/patterns/valuepatterns.py', "                    self._calc_next(current, stepval), loval, hival)", "                    self._calc_next(current, stepval), hival, loval)", 'Pbrown folds with the bounds exchanged'),
     ('C06', 'sc3/base/_osclib.py', "            self._args.append((arg_type, arg_value))", "            self._args.append((arg_value, arg_type))", 'argument entry stored as (value, type)'),
+    ('C13', 'sc3/seq/patterns/filterpatterns.py', "                    if inevent.get(key, False) is True or output is None:", "                    if inevent.get(key, False) is True and output is None:", 'Pgate draws a new value only when the gate is open AND nothing is held'),
 ]
 
 
